@@ -179,8 +179,10 @@ pub fn compare_flats(a: &Flat, b: &Flat, sc: &Scales, o: &CmpOpts) -> Result<u32
                         skipped += 1;
                         continue;
                     }
-                    let t = ratio_tol(tol(s, sc.n), den) * o.tol_mult;
                     let (x, y) = (ea.vals[0], eb.vals[0]);
+                    // 2 tol / den covers |r| <= 1; beyond that the denominator's error is amplified by |r|
+                    let amp = ((1.0 + x.abs().max(y.abs())) / 2.0).max(1.0);
+                    let t = ratio_tol(tol(s, sc.n), den) * o.tol_mult * if amp.is_finite() { amp } else { 1.0 };
                     if !((x - y).abs() <= t) {
                         return Err(Failure::new(o.sub, format!("`{}`: {} = {:e}, {} = {:e}, |diff| = {:e} > tol {:e}", k, o.names.0, x, o.names.1, y, (x - y).abs(), t)));
                     }
